@@ -1056,7 +1056,9 @@ class Exec:
         elif op == 'ChangeType':
             st.regs[R] = self.val(st, ins['x'])
         elif op == 'Convert':
-            st.regs[R] = self.convert(ins, self.val(st, ins['x']), g, pos)
+            xv = self.val(st, ins['x'])
+            stale_view_check(ctx, st, g, xv, pos, 'converted to string')
+            st.regs[R] = self.convert(ins, xv, g, pos)
         elif op == 'MakeClosure':
             st.regs[R] = FuncV(ins['fn']['n'], tuple(self.val(st, b) for b in ins['bindings']))
         elif op == 'MakeMap':
@@ -1772,6 +1774,16 @@ def builtin(ex, name, ins, args, st, g, pos):
     raise Unsupported('builtin ' + name)
 
 
+def stale_view_check(ctx, st, g, s, pos, use):
+    """s may be a view of a bufio.Reader's buffer (result of ReadLine, tagged with the generation of the read that produced
+    it): using it after a later read on the same reader uses a buffer that is no longer valid (documented contract)."""
+    if isinstance(s, Str) and isinstance(s.meta, tuple) and s.meta[0] == 'rlview':
+        rdo = st.heap.get(s.meta[1])
+        cur = rdo.d.get('rlgen', 0) if isinstance(rdo, LibV) else 0
+        ctx.oblige('assert', 'stale bufio.Reader buffer: result of ReadLine %s after the next read on the same reader' % use,
+                   b_and(g, i_cmp('>', cur, s.meta[2], W, True)), pos)
+
+
 def do_append(ex, st, g, s, t, ins):
     """append(s, t...) ; always copies into a fresh backing array (aliasing through append is not modelled)"""
     ctx = ex.ctx
@@ -1781,13 +1793,7 @@ def do_append(ex, st, g, s, t, ins):
             for gt, ta in alts_of(t):
                 res.append((b_and(gs, gt), do_append(ex, st, g, sa, ta, ins)))
         return merge_vals(ctx, st.heap, res)
-    if isinstance(s, Str) and isinstance(s.meta, tuple) and s.meta[0] == 'rlview':
-        # s is a view of a bufio.Reader's buffer (result of ReadLine): extending it after a later read on the same reader
-        # uses a buffer that is no longer valid (contract of bufio.Reader.ReadLine)
-        rdo = st.heap.get(s.meta[1])
-        cur = rdo.d.get('rlgen', 0) if isinstance(rdo, LibV) else 0
-        ctx.oblige('assert', 'stale bufio.Reader buffer: result of ReadLine extended by append after the next read on the same reader',
-                   b_and(g, i_cmp('>', cur, s.meta[2], W, True)), ins.get('pos'))
+    stale_view_check(ctx, st, g, s, ins.get('pos'), 'extended by append')
     if isinstance(s, Str) or (isinstance(t, Str) and ex.is_bytes(ins['t'])):
         if isinstance(t, Ptr) and t.obj is None:
             return s
